@@ -15,6 +15,15 @@ CHECKS = {
  "C02": ("exploration", "runtime monitoring: byte-level scan of produced binaries against generated marker sets + metadata probes",
   "Every identifier, file, directory, package and module name of the generated programs is a unique random marker; the obfuscated binary is searched for each must-hide marker, the source/TMPDIR paths and the Go version; go version -m, go tool buildid and the ELF section table are probed. A marker only counts when the regular stripped binary of the same program contains it.",
   "Sensitivity is proven per marker against the regular stripped build; exceptions (exported methods, reflection, non-GOGARBLE packages) are not asserted present."),
+ "C05": ("exploration", "runtime monitoring: in-process application of the tree's literal obfuscator to generated programs + execution of the result; end-to-end differential through garble -literals",
+  "Generated import-free programs with ~120 literals each (all forms, 16 positions, boundary lengths, 5 byte classes) are rewritten by the tree's literals.Obfuscate with each of the 5 obfuscators forced and with random choice over several PRNG seeds, compiled and run; every printed value is compared with the source bytes. The same programs plus -ldflags=-X targets go through garble -literals and are compared with the regular build.",
+  "Literal contexts come from a fixed grammar; a hook reports which literals were actually rewritten and by which obfuscator."),
+ "C09": ("exploration", "runtime monitoring: byte-level scan of -literals binaries for planted unique literals",
+  "Unique planted literals (all forms/positions/lengths of C05, a second package, an -ldflags=-X declaration, GOGARBLE subset variant, random -seed) are searched verbatim in the binary garble -literals produces; exceptions carry an `allowed` tag and are asserted visible in the regular binary instead.",
+  "A must-hide literal only counts when the regular stripped binary contains it verbatim."),
+ "C10": ("exploration", "runtime monitoring: differential execution of a crash catalogue (regular vs -tiny) over GOTRACEBACK settings and goroutine contexts",
+  "A crash-catalogue program (31 crash kinds x main/goroutine/deferred/init contexts x GOTRACEBACK settings, recover paths, position queries) is run as a regular and as a -tiny build: tiny stderr must equal the program's own OWN:-prefixed lines, stdout and exit status must be equal, recovered values unchanged, own-frame positions blank with line 1.",
+  "GOTRACEBACK=crash excluded; runtime-internal frames keep their positions because the runtime is never obfuscated."),
  "C16": ("exploration", "runtime monitoring: in-process oracle over generated inputs + hook event stream of real builds",
   "The tree's own naming function is executed in-process on 10^5 (quick) to 4*10^6 (thorough) generated (salt, seed, name) triples and every name garble produces during real garble-cold builds (std + program, ~9*10^4 applications per build) is taken from a hook stream; each output is checked for well-formedness, export preservation, purity and per-salt distinctness.",
   "Inputs are PRNG-generated, not exhaustive; clash classification trusts an independent sha256 recomputation."),
